@@ -158,6 +158,30 @@ def eraseBitsKvs : List (String × Json) → List (String × Json)
   | (k, v) :: r => (k, eraseBits v) :: eraseBitsKvs r
 end
 
+mutual
+/-- how deep arrays and objects are nested (a scalar: 0, `[]`: 1, `[[1]]`: 2) -/
+def depth : Json → Nat
+  | .arr xs => 1 + depthList xs
+  | .obj kvs => 1 + depthKvs kvs
+  | _ => 0
+def depthList : List Json → Nat
+  | [] => 0
+  | x :: xs => max (depth x) (depthList xs)
+def depthKvs : List (String × Json) → Nat
+  | [] => 0
+  | (_, v) :: r => max (depth v) (depthKvs r)
+end
+
+/-- `serde_json`'s recursion limit: `from_str` gives up ("recursion limit exceeded") on a text whose arrays and
+objects are nested 128 deep or deeper -/
+def serdeDepthLimit : Nat := 127
+
+/-- `serde_json::from_str` as a reader of one record: `parse`, refusing what is nested too deep -/
+def parseSerde (t : List Char) : Option Json :=
+  match parse t with
+  | some j => if depth j ≤ serdeDepthLimit then some j else none
+  | none => none
+
 /-! ### the reading side of a CSV output file (RFC 4180) -/
 
 /-- where the reader is inside a record -/
